@@ -94,6 +94,14 @@ def gen(rng, tier):
         for w in perturb(t) + extra:
             add([(a, (w if a == n else b)) for a, b in STD], "perturbed-type")
             add([(n, w)], "perturbed-type")
+    # longer than five: the five standard fields (or a well-formed selection) followed / interleaved / preceded by foreign
+    # or repeated members — every member is examined, however many there are
+    for base in (list(STD), STD[:4], [STD[0], STD[2], STD[4]]):
+        for extra in ([("extra", "string")], [("extra", "string"), ("more", "uint256")], [STD[0]], [STD[4]], [("salt2", "bytes32")] * 1, [("x%d" % i, "bool") for i in range(5)], [("x%d" % i, "bool") for i in range(40)]):
+            add(base + extra, "over-long")
+            add(extra + base, "over-long")
+            k = rng.randrange(1, len(base))
+            add(base[:k] + extra + base[k:], "over-long")
     add([], "no-domain-type", include_domain_type=False)
     add([STD[0]], "no-domain-type", include_domain_type=False)
     # every command-line route that reads typed data must apply the same check: hash typeddata, hash typeddata
